@@ -149,6 +149,21 @@ def run(tier, seed):
                     bad.append(dict(failed="each new set of adiabatic states has non-negative overlap, state by state, with the set it was continued from (at x=%r, off-diagonal of V %.3g: overlaps %r)" % (xv, offd, ov.tolist()), case=info)); break
                 prev = el
             res.case(("zerocoupling", name, tuple(flip)), True, info)
+    # ---- the surface command: couplings printed along a scan carry the sign of states continued from the previous row
+    import io
+    from mudslide.surface import surface_main
+    for name, rng_, npts in [("models", [-10.0, 10.0], 6), ("modelx", [-10.0, 10.0], 5), ("modelw", [-1.5, 1.5], 40 if tier == "quick" else 100), ("super", [-5.0, 5.0], 7), ("dual", [-6.0, 6.0], 9)]:
+        buf = io.StringIO(); surface_main(name, list(rng_), npts, 0, [0.0], output=buf)
+        rows = [[float(v) for v in l.split()] for l in buf.getvalue().splitlines() if l and not l.startswith("#")]
+        m = mudslide.models.scattering_models[name](); n_ = m.nstates(); el = None; worst = 0.0
+        pairs = [(j, i) for i in range(n_) for j in range(i)]
+        for r_, xv in zip(rows, np.linspace(rng_[0], rng_[1], npts)):
+            el = m.update(np.array([xv]), electronics=el)
+            want = [el._derivative_coupling[j, i, 0] for (j, i) in pairs]; got = r_[1 + 2 * n_: 1 + 2 * n_ + len(pairs)]
+            worst = max(worst, max(abs(a_ - b_) for a_, b_ in zip(want, got)) if pairs else 0.0)
+        res.count("surface-scan/" + name); res.case(("surfscan", name, npts), True)
+        if len(rows) != npts or worst > 1e-8:
+            bad.append(dict(failed="along a scan each row's states are continued from the previous row (surface command on %s, %d points: printed couplings differ from the sign-continued walk by %.3g)" % (name, npts, worst), case=dict(model=name, n=npts)))
     # ---- models that carry a reference of their own (constructor option reference=, or compute() called on the model itself):
     #      along a path the states must still be continued from the previous point, not from that fixed reference
     for name, lo, hi in [("modelx", -9.0, 11.0), ("models", -9.0, 11.0), ("super", -6.0, 6.0), ("dual", -5.0, 5.0)]:
